@@ -247,21 +247,50 @@ class Havoc(Opaque):
         Opaque.__init__(self, name)
         self.field = lambda f: Havoc("%s.%s" % (name, f))
         self.sym_at = lambda idx: Ptr([Havoc("%s[]" % name)], 0)
+        self._items = None
+
+    def as_list(self):
+        """an unknown collection is represented by one unknown element (the loop body / per-element call is seen once)"""
+        if self._items is None:
+            self._items = [Havoc("%s[]" % self.name)]
+        return self._items
 
 
 def havoc_return(F, f, name):
     """an unknown value of the callee's return type: Result -> Ok(unknown), tuple -> tuple of unknowns, bool -> a term"""
     g = F.fns.get(getattr(f, "xid", None)) or F.fns.get(f.id)
     ty = g.d["locals"][0] if g is not None and g.d.get("locals") else ""
+    if g is None:
+        # byte reader / writer primitives of winter-utils
+        m = re.search(r"::read_(u8|u16|u32|u64|usize|bool)$", f.id)
+        if m:
+            ty = "core::result::Result<%s, DeserializationError>" % m.group(1)
+        elif re.search(r"::read_(vec|array|many|u8_vec)$|::read_from$|::read$", f.id):
+            ty = "core::result::Result<?, DeserializationError>"
+        elif re.search(r"::write_\w+$|::write_into$|::write$", f.id):
+            ty = "()"
     return havoc_of_type(ty, name)
 
 
-def havoc_args(fn):
-    """unknown arguments of the types fn declares"""
-    return [havoc_of_type(fn.d["locals"][i], "arg%d" % i) for i in range(1, fn.d["argc"] + 1)]
+def havoc_args(fn, F=None):
+    """unknown arguments of the types fn declares (structs of the workspace get typed fields when F is given)"""
+    return [havoc_of_type(fn.d["locals"][i], "arg%d" % i, F) for i in range(1, fn.d["argc"] + 1)]
 
 
-def havoc_of_type(ty, name):
+def havoc_of_type(ty, name, F=None, depth=0):
+    def struct(ty, nm):
+        if F is None or depth > 3:
+            return None
+        base = ty.split("<")[0]
+        cands = [a for a in F.adts if a == base or a.endswith("::" + base)]
+        if len(cands) != 1:
+            return None
+        adt = F.adts[cands[0]]
+        if len(adt["variants"]) != 1 or adt.get("kind") == "enum":
+            return None
+        v = adt["variants"][0]
+        return Agg([havoc_of_type(fd["ty"], "%s.%s" % (nm, fd["name"]), F, depth + 1) for fd in v["fields"]], "adt", adt["id"], v["name"])
+
     def mk(ty, nm):
         ty = ty.strip()
         if re.match(r"^(std|core)::result::Result<", ty):
@@ -284,6 +313,9 @@ def havoc_of_type(ty, name):
             return Agg([Poly.var("%s%d" % (nm, i)) for i in range(4)], "array")
         if ty in ("usize", "u64", "u32", "u16", "u8"):
             return Term(nm)
+        st = struct(ty, nm)
+        if st is not None:
+            return st
         return Havoc(nm)
     return mk(ty, name)
 
@@ -316,13 +348,16 @@ def skeleton_paths(F, fn, inline_pat, record_pat, args, max_paths=128, workspace
     def make():
         I = Interp(F)
         I.havoc = True
+        I.sym_ranges = True
         procmodel.install_field(I)
         n = [0]
 
         def generic(I_, a, f):
             n[0] += 1
             if recp.search(f.id):
-                I_.effects.append((f.id.rsplit("::", 1)[-1], tuple(a[1:])))
+                parts = f.id.split("::")
+                owner = re.sub(r"@.*$", "", parts[-2]) if len(parts) > 1 else ""
+                I_.effects.append((parts[-1], tuple(a[1:]), owner))
             return havoc_return(F, f, "%s#%d" % (f.id.rsplit("::", 1)[-1], n[0]))
 
         class Matcher:
